@@ -33,6 +33,7 @@ package main
 import (
 	"fmt"
 	"go/ast"
+	"go/constant"
 	"go/token"
 	"sort"
 	"strconv"
@@ -61,6 +62,9 @@ const (
 	kOpaque // a type of spec.Opaque: a Lean type parameter; values are only passed on
 	kOrd    // float32 under spec.FloatAbs: a Lean type parameter with a decidable `<` (only < and > are translated)
 	kOpt    // *float32 under spec.FloatAbs: Option (nil = none); made by &v of a variable assigned once, read by *p
+	kF32    // float32 under spec.FloatSym: a symbolic expression tree Go.FExpr (the arithmetic is not interpreted)
+	kF64    // float64 under spec.FloatSym: Go.FExpr as well (the translator keeps the two precisions apart and writes every conversion)
+	kFConst // untyped floating-point constant (exact value in xval.fc)
 )
 
 type xty struct {
@@ -88,6 +92,9 @@ var (
 	tAny    = &xty{k: kAny}
 	tBucket = &xty{k: kBucket}
 	tErrOpt = &xty{k: kErrOpt}
+	tF32    = &xty{k: kF32}
+	tF64    = &xty{k: kF64}
+	tFCon   = &xty{k: kFConst}
 )
 
 func listOf(e *xty) *xty { return &xty{k: kList, elem: e} }
@@ -137,6 +144,14 @@ func (t *xty) mentionsAny() bool {
 		}
 	}
 	return false
+}
+
+// does the type contain a function type (then a structure with such a field derives nothing)
+func (t *xty) mentionsFunc() bool {
+	if t == nil {
+		return false
+	}
+	return t.k == kFunc || t.elem.mentionsFunc() || t.key.mentionsFunc()
 }
 
 // the type parameters (spec.Opaque / spec.FloatAbs names) a type mentions
@@ -218,6 +233,8 @@ func (t *xty) lean() string {
 		return "Option String"
 	case kOpaque, kOrd:
 		return t.name
+	case kF32, kF64:
+		return "Go.FExpr"
 	case kOpt:
 		return "Option " + parenT(t.elem.lean())
 	case kList:
@@ -330,6 +347,7 @@ type xval struct {
 	s  string
 	ty *xty
 	c  int64
+	fc constant.Value // exact value when ty is kFConst
 }
 
 // control context of the statement being translated
@@ -514,6 +532,13 @@ func (x *xtr) goTy(e ast.Expr) *xty {
 			if x.sp.FloatAbs != "" {
 				return &xty{k: kOrd, name: x.sp.FloatAbs}
 			}
+			if x.sp.FloatSym {
+				return tF32
+			}
+		case "float64":
+			if x.sp.FloatSym {
+				return tF64
+			}
 		}
 		if _, ok := x.structs[t.Name]; ok {
 			return x.structTy(t.Name)
@@ -542,7 +567,7 @@ func (x *xtr) goTy(e ast.Expr) *xty {
 			if _, ok := x.structs[id.Name]; ok {
 				return x.structTy(id.Name)
 			}
-			if id.Name == "float32" && x.sp.FloatAbs != "" {
+			if id.Name == "float32" && (x.sp.FloatAbs != "" || x.sp.FloatSym) {
 				return &xty{k: kOpt, elem: x.goTy(t.X)}
 			}
 		}
@@ -630,6 +655,8 @@ func (x *xtr) zero(n ast.Node, t *xty) string {
 		return "[]"
 	case kOpt:
 		return "none"
+	case kF32, kF64:
+		return "(Go.FExpr.lit 0)"
 	case kStruct:
 		return t.name + ".zero"
 	case kAny:
@@ -668,7 +695,11 @@ func (x *xtr) structText(s *xstruct) genFunc {
 		fmt.Fprintf(&b, "  %s : %s\n", ident(f.name), f.ty.lean())
 		zs = append(zs, x.zero(nil, f.ty))
 	}
-	if !s.poly && len(s.tparams) == 0 {
+	hasFn := false
+	for _, f := range s.fields {
+		hasFn = hasFn || f.ty.mentionsFunc()
+	}
+	if !s.poly && len(s.tparams) == 0 && !hasFn {
 		b.WriteString("  deriving DecidableEq, Repr\n")
 	}
 	fmt.Fprintf(&b, "/-- the zero value of `%s` -/\ndef %s.zero%s : %s := ⟨%s⟩\n", s.name, s.name, impl, ty, strings.Join(zs, ", "))
